@@ -16,6 +16,8 @@ Line-protocol driver for C15 (generated definitions and model files only — no 
   M tdiv <sa> <|a|> <sb> <|b|>   true division (s = 1: negative) → `tdiv c <neg> <m> <eoff> p <neg> <m> <eoff>`:
                                   c = compiled fast path, p = CPython; value = (-1)^neg · m · 2^(eoff-1200)
   M i2f <sa> <|a|>               `(double)a` as an integer → `val <neg> <n>`
+  S <op> <sa> <|a|> <sb> <|b|>   the *specification* side (what the theorems say Python computes), on unbounded
+                                  integers: op ∈ and or xor fdiv fmod shl shr → `val <neg> <|n|>`
 -/
 open FixedWidth CSem
 
@@ -98,6 +100,30 @@ def model (ws : List String) : String :=
     | none => "bad-args"
   | _ => "bad-op"
 
+def specOp (op : String) (a b : Int) : Option Int :=
+  match op with
+  | "and" => some (Tagged.pyAnd a b)
+  | "or" => some (Tagged.pyOr a b)
+  | "xor" => some (Tagged.pyXor a b)
+  | "fdiv" => some (a.fdiv b)
+  | "fmod" => some (a.fmod b)
+  | "shl" => some (Tagged.pyShl a b.toNat)
+  | "shr" => some (Tagged.pyShr a b.toNat)
+  | _ => none
+
+def spec (ws : List String) : String :=
+  match ws with
+  | [op, sa, a, sb, b] =>
+    match a.toNat?, b.toNat? with
+    | some a, some b =>
+      let ai : Int := if sa == "1" then -(a : Int) else a
+      let bi : Int := if sb == "1" then -(b : Int) else b
+      match specOp op ai bi with
+      | some r => s!"val {showBool (decide (r < 0))} {r.natAbs}"
+      | none => "bad-op"
+    | _, _ => "bad-args"
+  | _ => "bad-op"
+
 def step (line : String) : String :=
   let ws := (line.trimAscii.toString.splitOn " ").filter (· ≠ "")
   match ws with
@@ -106,6 +132,7 @@ def step (line : String) : String :=
     | some ns => CFast.dispatch f ns
     | none => "bad-args"
   | "M" :: rest => model rest ++ " ub=0"
+  | "S" :: rest => spec rest
   | _ => "bad-op"
 
 partial def loop (h : IO.FS.Stream) : IO Unit := do
